@@ -130,6 +130,21 @@ def directed_cases(tier):
                {"ws": "A", "host": "h1", "upload": True, "mode": "no", "jobs": 1, "seed": rng.getrandbits(32)},
                {"ws": "B", "host": "h1", "upload": False, "mode": "yes", "jobs": 1, "seed": rng.getrandbits(32)}]
         out.append({"model": model, "wss": ["A", "B"], "ops": ops, "directed": "download-only workspace, then source edit"})
+    # a package that is fingerprinted AND not relocatable: another location must build it itself
+    for k in range(2):
+        lib = projgen._leaf(rng); lib["fingerprint"] = True; lib["relocatable"] = False
+        plain = projgen._leaf(rng); plain["relocatable"] = False
+        root = projgen._leaf(rng)
+        root["depends"] = [{"name": "lib", "use": ["result", "deps"]}, {"name": "plain", "use": ["result", "deps"]}]
+        if k:
+            root["fingerprint"] = True
+        model = {"recipes": {"root": root, "lib": lib, "plain": plain}, "classes": {}, "default_env": {}, "sources": {},
+                 "order": ["root", "lib", "plain"], "features": ["directed-nonreloc-fingerprinted"]}
+        ops = [{"ws": "A", "host": "h1", "upload": True, "mode": "no", "jobs": 1, "seed": rng.getrandbits(32), "fresh": True},
+               {"ws": "B", "host": "h1", "upload": False, "mode": rng.choice(["yes", "deps"]), "jobs": 1, "seed": rng.getrandbits(32), "fresh": True},
+               {"ws": "B", "host": "h1", "upload": True, "mode": "yes", "jobs": 1, "seed": rng.getrandbits(32), "fresh": True},
+               {"ws": "B", "host": "h1", "upload": False, "mode": "yes", "jobs": 1, "seed": rng.getrandbits(32), "fresh": True}]
+        out.append({"model": model, "wss": ["A", "B"], "ops": ops, "directed": "fingerprinted and non-relocatable package, two locations"})
     return out
 
 def all_reloc(model):
@@ -317,6 +332,7 @@ def run_case(case):
         base = dict(case["model"])
         base["hostfile"] = hostfile
         states, hists, mats, built_by = {}, {}, {}, {}
+        own_uploads = {}    # workspace -> dist directories it has ever uploaded from
         for w in case["wss"]:
             os.makedirs(projs[w])
             states[w] = base
@@ -417,6 +433,24 @@ def run_case(case):
                 viol = {"kind": "downloaded-result-differs-from-local-build",
                         "detail": "op %d ws %s host %s mode %s (%d downloaded): %s" % (n, w, op["host"], op["mode"], ndl, diffs)}
                 break
+            # a non-relocatable package is only valid at the location it was built at: this workspace may
+            # download one only if it has uploaded that package itself at some time
+            if op["upload"]:
+                for lab, sc in ran:
+                    if lab == "dist":
+                        own_uploads.setdefault(w, set()).add(os.path.dirname(sc))
+            for k, ent in info.items():
+                d = ent["steps"]["dist"]
+                if (d.get("valid") and d.get("ws") in visited and d.get("prov") == "downloaded"
+                        and states[w]["recipes"].get(ent["recipe"], {}).get("relocatable") is False
+                        and os.path.dirname(d["ws"]) not in own_uploads.get(w, ())):
+                    viol = {"kind": "foreign-non-relocatable-artifact-taken",
+                            "detail": "op %d ws %s mode %s: %s is not relocatable and was never uploaded from this location, "
+                                      "yet its result was downloaded" % (n, w, op["mode"], k)}
+                    break
+            if viol:
+                break
+            stats.inc("nonreloc_download_rule_checked")
             if op.get("expect_all_downloaded") and damaged is None and all_reloc(states[w]):
                 bad = [s for lab, s in ran if lab in ("build", "dist")]
                 # fingerprinted or non-relocatable packages are host/path specific: same host here,
